@@ -1,4 +1,8 @@
 
+val implb : bool -> bool -> bool
+
+val negb : bool -> bool
+
 type nat =
 | O
 | S of nat
@@ -28,11 +32,23 @@ type z =
 module Nat :
  sig
   val eqb : nat -> nat -> bool
+
+  val leb : nat -> nat -> bool
+
+  val ltb : nat -> nat -> bool
  end
+
+val nth_error : 'a1 list -> nat -> 'a1 option
 
 val rev : 'a1 list -> 'a1 list
 
+val map : ('a1 -> 'a2) -> 'a1 list -> 'a2 list
+
+val forallb : ('a1 -> bool) -> 'a1 list -> bool
+
 val filter : ('a1 -> bool) -> 'a1 list -> 'a1 list
+
+val repeat : 'a1 -> nat -> 'a1 list
 
 val ex_keep : (((((nat * n) * z) * z list) * z option) * positive) * bool
 
@@ -133,3 +149,140 @@ val started : node -> bool
 val starteds : items -> bool
 
 val throw_as_resume : event -> event
+
+type fkind =
+| KFunc of bool
+| KGen of bool * bool
+
+type stmt =
+| SExpr
+| SRaise
+| SReturn
+| SYield
+| SIf of block * block
+| SLoop of block * block
+| STry of block * block
+| SFin of block * block
+and block =
+| BNil
+| BCons of stmt * block
+
+type func = { f_kind : fkind; f_body : block; f_tflag : bool }
+
+val is_term_s : stmt -> bool
+
+val is_term : block -> bool
+
+val clean_s : nat -> stmt -> bool
+
+val clean_b : nat -> block -> bool
+
+type choice = { c_kids : nat; c_go : bool; c_exc : bool option }
+
+type outcome =
+| ONormal
+| OReturn of bool
+| ORaise of bool
+| OAbandon
+| OStuck
+
+type tok =
+| TStart of skind
+| TKid
+| TLine
+| TRet
+| TYield
+| TUnwind
+
+val call_part : choice -> tok list
+
+val is_stop : outcome -> bool
+
+val exec_s :
+  bool -> bool -> nat -> nat -> stmt -> choice list -> (tok
+  list * outcome) * choice list
+
+val exec_b :
+  bool -> bool -> nat -> nat -> block -> choice list -> (tok
+  list * outcome) * choice list
+
+val exec_l :
+  bool -> bool -> nat -> nat -> block -> block -> choice list -> (tok
+  list * outcome) * choice list
+
+val falloff : (fkind -> bool) -> fkind -> bool -> tok list
+
+val finish : (fkind -> bool) -> bool -> fkind -> bool -> outcome -> tok list
+
+val gen_allowed : fkind -> bool
+
+val run :
+  (fkind -> bool) -> bool -> func -> nat -> choice list -> tok list * outcome
+
+val default_branch : tok list
+
+type etok =
+| EMark
+| EFall
+| EGotoRet
+| EErrLabel
+| EIfExc
+| EExc
+| EUnw
+
+val epilogue : (fkind -> bool) -> fkind -> bool -> etok list
+
+val take_seg : tok list -> tok list
+
+val drop_seg : tok list -> tok list
+
+val drop_segs : nat -> tok list -> tok list
+
+val seg_at : nat -> tok list -> tok list
+
+val count_yield : tok list -> nat
+
+val final : outcome -> bool
+
+val complete_seg : nat -> tok list -> outcome -> bool
+
+type xt =
+| XT of nat * choice list * nat * nat * xts
+and xts =
+| XNil
+| XCons of xt * xts
+
+val tok_events : tool -> bool -> nat -> tok -> event list
+
+val expand : tool -> bool -> nat -> tok list -> event list list -> event list
+
+val seg_of :
+  (fkind -> bool) -> bool -> func list -> nat -> choice list -> nat -> nat ->
+  tok list
+
+val word :
+  (fkind -> bool) -> bool -> tool -> bool -> func list -> xt -> event list
+
+val words :
+  (fkind -> bool) -> bool -> tool -> bool -> func list -> xts -> event list
+  list
+
+val mids : tok list -> node list -> (items * ekind) option
+
+val seg_node : nat -> tok list -> node list -> node option
+
+val to_node : (fkind -> bool) -> bool -> func list -> xt -> node option
+
+val to_nodes : (fkind -> bool) -> bool -> func list -> xts -> node list option
+
+val complete : (fkind -> bool) -> bool -> func list -> xt -> bool
+
+val completes : (fkind -> bool) -> bool -> func list -> xts -> bool
+
+val func_ok : bool -> func -> bool
+
+val prog_ok : bool -> func list -> bool
+
+val all_true : fkind -> bool
+
+val g_not_inlined : fkind -> bool
